@@ -4,16 +4,30 @@ use tracing::Level;
 pub const N: usize = 6;
 pub const TARGETS: [&str; 3] = ["app", "app::db", "other"];
 pub const NAMES: [&str; 2] = ["alpha", "beta"];
-/// (target index, name index); every site is an INFO span with fields x (i64), flag (bool), y (empty at creation), val (uid)
+/// (target index, name index); every site is an INFO span with fields x (i64), flag (bool), y (empty at creation), val (uid), who (Debug)
 pub const SITES: [(u8, u8); N] = [(0, 0), (0, 1), (1, 0), (1, 1), (2, 0), (2, 1)];
-pub fn make(i: usize, x: i64, flag: bool, val: u64) -> tracing::Span {
+/// The value of the `who` field: recorded through `Debug`, so that a pattern matcher of a directive runs this impl.
+pub enum Who {
+    Name(&'static str),
+    /// its `Debug` impl panics
+    Boom,
+}
+impl std::fmt::Debug for Who {
+    fn fmt(&self, f: &mut std::fmt::Formatter<'_>) -> std::fmt::Result {
+        match self {
+            Who::Name(n) => f.write_str(n),
+            Who::Boom => panic!("injected panic in the Debug impl of a span field"),
+        }
+    }
+}
+pub fn make(i: usize, x: i64, flag: bool, val: u64, who: &Who) -> tracing::Span {
     match i {
-        0 => tracing::span!(target: "app", Level::INFO, "alpha", x = x, flag = flag, y = tracing::field::Empty, val = val),
-        1 => tracing::span!(target: "app", Level::INFO, "beta", x = x, flag = flag, y = tracing::field::Empty, val = val),
-        2 => tracing::span!(target: "app::db", Level::INFO, "alpha", x = x, flag = flag, y = tracing::field::Empty, val = val),
-        3 => tracing::span!(target: "app::db", Level::INFO, "beta", x = x, flag = flag, y = tracing::field::Empty, val = val),
-        4 => tracing::span!(target: "other", Level::INFO, "alpha", x = x, flag = flag, y = tracing::field::Empty, val = val),
-        5 => tracing::span!(target: "other", Level::INFO, "beta", x = x, flag = flag, y = tracing::field::Empty, val = val),
+        0 => tracing::span!(target: "app", Level::INFO, "alpha", x = x, flag = flag, y = tracing::field::Empty, val = val, who = ?who),
+        1 => tracing::span!(target: "app", Level::INFO, "beta", x = x, flag = flag, y = tracing::field::Empty, val = val, who = ?who),
+        2 => tracing::span!(target: "app::db", Level::INFO, "alpha", x = x, flag = flag, y = tracing::field::Empty, val = val, who = ?who),
+        3 => tracing::span!(target: "app::db", Level::INFO, "beta", x = x, flag = flag, y = tracing::field::Empty, val = val, who = ?who),
+        4 => tracing::span!(target: "other", Level::INFO, "alpha", x = x, flag = flag, y = tracing::field::Empty, val = val, who = ?who),
+        5 => tracing::span!(target: "other", Level::INFO, "beta", x = x, flag = flag, y = tracing::field::Empty, val = val, who = ?who),
         _ => tracing::Span::none(),
     }
 }
